@@ -137,3 +137,26 @@ Lemma early_set_variant_loses_message :
   scans true false [(ADDRXLAT_ERR_INVALID, ADDRXLAT_OK)] = true /\
   ax_status_msg_ok (step_not_present (scans true false [(ADDRXLAT_ERR_INVALID, ADDRXLAT_OK)])) = false.
 Proof. split; reflexivity. Qed.
+
+(** after fixes/74 every status of the addrxlat enumeration — library-defined
+    or custom, whoever produced it — maps to a documented kdump status *)
+Lemma a2k_doc_all s : addrxlat_doc s = true -> status_msg_ok (addrxlat2kdump s) = true.
+Proof.
+  unfold addrxlat_doc. rewrite orb_true_iff, !andb_true_iff, !Z.leb_le. intro H.
+  unfold addrxlat2kdump, addrxlat2kdump_gen, status_msg_ok, kdump_doc.
+  destruct (Z.eqb_spec s ADDRXLAT_OK) as [->|Hne]; [reflexivity|]. cbn [negb orb fst snd].
+  destruct (Z.ltb_spec s 0) as [Hneg|Hpos]; cbn [andb].
+  - destruct (Z.leb_spec (- KDUMP_ERR_ADDRXLAT) s) as [Hb|Hb].
+    + assert (E : u32 (- s) = - s).
+      { unfold u32. apply Z.mod_small. unfold KDUMP_ERR_ADDRXLAT in Hb. lia. }
+      rewrite E. unfold KDUMP_ERR_ADDRXLAT in Hb.
+      assert (Hd : (0 <=? - s) && (- s <=? 9) = true) by (rewrite andb_true_iff, !Z.leb_le; lia).
+      rewrite Hd. destruct (Z.eqb_spec (- s) KDUMP_OK) as [E0|_]; [unfold KDUMP_OK in E0; lia|reflexivity].
+    + destruct (Z.eqb_spec s ADDRXLAT_ERR_NODATA) as [->|_]; reflexivity.
+  - destruct (Z.eqb_spec s ADDRXLAT_ERR_NODATA) as [->|_]; reflexivity.
+Qed.
+
+(** the unbounded mapping lets a foreign custom status out as an undocumented one *)
+Lemma a2k_unbounded_undocumented :
+  addrxlat_doc (-100) = true /\ kdump_doc (fst (addrxlat2kdump_gen false (-100))) = false.
+Proof. split; reflexivity. Qed.
